@@ -1832,6 +1832,9 @@ def table_sweep(ctx, dist):
         return memo[key]
     for r in recs:
         t = table[(r["cls"], r["member"])]
+        if r["kind"] == "get":
+            # a getter is no member of the table (`resolve` knows setters and methods): reading changes nothing
+            t = {"kind": "getter", "outcomes": [["returns", "none"], ["raises", "none"]], "foreign": []}
         case = {"member_sweep": {k: r[k] for k in ("cls", "member", "kind", "on", "recipe", "shown", "accepted", "variant")}}
         upd = [c for c in r["changed"] if c[2] == "updated_at"]
         cre = [c for c in r["changed"] if c[2] == "created_at"]
